@@ -145,7 +145,10 @@ def streams(rng, tier):
     reg = [rt for rt in C01.registry() if not rt.enconly]
     for rt in reg:
         for h in ("9bffffffffffffffff", "9b00000000ffffffff01", "bbffffffffffffffff0101", "5bffffffffffffffff00", "7b7fffffffffffffff61",
-                  "9f", "bf", "5f", "7f", "9f9f9f9f9f9f9f9f", "821bffffffffffffffff1a3b9aca00", "c6" * 9, "d8" , "fb", "f9", "3b", "38"):
+                  "9f", "bf", "5f", "7f", "9f9f9f9f9f9f9f9f", "821bffffffffffffffff1a3b9aca00", "c6" * 9, "d8" , "fb", "f9", "3b", "38",
+                  "821b800000000000000000", "821b7fffffffffffffff1a3b9aca00", "821b7fffffffffffffff1affffffff", "821bffffffffffffffff00",
+                  "821b80000000000000001a3b9ac9ff", "9f1b8000000000000000" "00ff", "1b8000000000000000", "3b8000000000000000", "3b7fffffffffffffff",
+                  "3bffffffffffffffff", "1bffffffffffffffff", "1b0000000100000041", "1a00110000", "19d800"):
             hostile.append((f"tdecm {rt.name} {h}", f"tdec {rt.desc_s} {h}"))
     s5 = Stream("typed-hostile-lengths", "hcore", [a for a, _ in hostile], model_ops=[b for _, b in hostile], judge=judge_tdecm,
                 rule="every registered type on inputs declaring 2^64-1 / 2^32-1 elements or bytes, unterminated indefinite items, the Duration carry overflow")
